@@ -252,7 +252,17 @@ def run(prog, rep, tier, repo):
         rets = f.return_values()
         ok = len(rets) == 1 and tag(rets[0]) == 'call' and rets[0][1].endswith('::ln') and tag(rets[0][2][0]) == 'call' and rets[0][2][0][1] == DS + 'Continuous::pdf' \
             and rets[0][2][0][2] == (('arg', 1, f.names.get(1)), ('arg', 2, f.names.get(2)))
-        (rep.ok if ok else rep.viol)('ln-pdf', key, 'default ln_pdf(x) = pdf(x).ln()' if ok else 'default ln_pdf is %s' % [show(r) for r in rets], site_of(f.body))
+        # refuted in the read form only: one returned value built from calls of f64 methods and of Continuous::pdf on (self, x), nothing else
+        cz = [z for r in rets for z in subterms(r) if tag(z) == 'call']
+        fm = [f64_method_name(z[1]) for z in cz if is_f64_method(z[1])]
+        read = len(rets) == 1 and any(z[1] == DS + 'Continuous::pdf' for z in cz) and all(z[1] == DS + 'Continuous::pdf' or is_f64_method(z[1]) for z in cz) and \
+            (not any(m in ('ln', 'log', 'ln_1p') for m in fm) or (len(cz) == 2 and fm == ['ln']))
+        if ok:
+            rep.ok('ln-pdf', key, 'default ln_pdf(x) = pdf(x).ln()')
+        elif read:
+            rep.viol('ln-pdf', key, 'default ln_pdf is %s' % [show(r) for r in rets], site_of(f.body))
+        else:
+            rep.undecided('ln-pdf', key, 'default ln_pdf is not an expression in pdf(x) alone (%s): not read' % [show(r)[:80] for r in rets], site_of(f.body), proof=False)
     path = DS + 'normal::Normal'
     kp, kl = '<%s as %sContinuous>::pdf' % (path, DS), '<%s as %sContinuous>::ln_pdf' % (path, DS)
     key = 'ln-pdf:Normal'
